@@ -322,7 +322,7 @@ SPEC = {
     "assumptions": [
         "Go scheduler, TCP and timers are not in the model; fairness hypothesis of stop_terminates: every enabled step of the run loop or of a goroutine eventually happens, and handler callbacks, storage calls, fetcher calls and conn.Close return",
         "hypothesis `prompt` of the safety theorems (D27): a thread counter is never read as zero while a goroutine started for that class has not yet executed its first statement (the increment); needs a goroutine unscheduled for > 100 ms; not reproducible without a scheduler hook, not claimed as a finding (C19_d27_refuted is the model witness)",
-        "hypothesis of stop_terminates (D26): processUnconfirmedTxs has not left its loop on an error while a producer waits on the full tx channel; the excluded schedule is C19_d26_refuted and replays against the real code (corpus/C19/d26_consumer_abort_full_channel.json)",
+        "D26 (processUnconfirmedTxs left its loop on an error while monitorIncoming waited on the full tx channel: Stop never returned) was replayed against the real code and repaired in /repo 99e17c5; the termination theorems are for the repaired consumer (model parameter daf = true) without a hypothesis about it; C19_d26_refuted is the theorem about the old consumer (daf = false); corpus/C19/d26_consumer_abort_full_channel.json is the regression test",
         "one untrusted node stands for all; application calls other than Stop (SendTx, BroadcastTx, HandleTx) are outside the model; the harness runs with UntrustedCount = 0 (untrusted peers are covered by the proofs only)",
         "bounded time is checked as: Stop returns within 4 s (the phase loops poll every 100 ms; typical 0.4 - 0.7 s); net.Dial to a blackholed address is outside (connect is a step that returns)",
     ],
